@@ -117,6 +117,16 @@ class Engine(BaseEngine):
                             continue
                         cls = "json-small" if ol < need else "json-room"
                         out.append((cls, "evjson %s n:%d n:%d" % (C.tb(text), ol, rng.choice(fills))))
+        # Event::from_json with kind / created_at values far outside their fields (every wrap-around window of a 16/32/64-bit
+        # accumulator): an error, never a panic, never a truncated value
+        for j in range(40 if tier == "quick" else 1500):
+            kind = rng.choice([rng.randrange(65536, 1 << 32), rng.randrange(1 << 32, 1 << 34), (1 << 32) * rng.randrange(1, 9) + rng.randrange(65536),
+                               (1 << 32) + 1, (1 << 32) + 65535, 10 ** 10, 10 ** 19, 65535, 65536])
+            created = rng.choice([1, (1 << 64) - 1, 1 << 64, 3 * 10 ** 19, rng.randrange(1 << 64, 10 ** 21)]) if j % 2 else 1
+            ev = (b'{"id":"' + b"11" * 32 + b'","pubkey":"' + b"22" * 32 + b'","created_at":%d,"kind":%d,"tags":[],"content":"c","sig":"' % (created, kind)
+                  + b"33" * 64 + b'"}')
+            cls = "json-room" if kind <= 65535 and created < (1 << 64) else "json-range"
+            out.append((cls, "evjson %s n:400 n:%d" % (C.tb(ev), rng.choice(fills))))
         for nk in (65535, 65536):
             f = {"ids": [], "authors": [], "kinds": [7] * nk, "tags": [], "since": None, "until": None, "limit": None}
             out.append(("filter-big", "ctor_filter %s %s n:170" % (C.t_filter(f), C.tn(fl_size(f) + 1))))
@@ -145,6 +155,8 @@ class Engine(BaseEngine):
             rcls = i["r"].split(" ")[0].split(":")[0]
             if gcls.startswith("json-oversize") and rcls == "ok":
                 return Verdict(oracle_ok=False, cls="oversize-not-refused", detail="%s accepted a tag section larger than 65535 bytes" % cmd, outcome=rcls)
+            if gcls == "json-range" and rcls == "ok":
+                return Verdict(oracle_ok=False, cls="out-of-range-accepted", detail="%s accepted a kind / created_at outside its field" % cmd, outcome=rcls)
             if gcls == "json-small" and rcls == "ok":
                 return Verdict(oracle_ok=False, cls="small-buffer-not-error", detail="%s accepted a buffer smaller than the event needs" % cmd, outcome=rcls)
             if gcls == "json-room" and rcls != "ok":
